@@ -17,6 +17,12 @@
 //   step   = i k | e k | ih h k | ir n k.. | as n k.. | asu n k.. | ek k | ep p | er a b | ef t m | cl | sw | x | rp n k..
 //            asi n k..  construction from a forward-iterator range (no distance precondition) / flat_set(first, last)
 //            asui n k.. flat_set(sorted_unique, first, last)        cp  copy assignment s = t (or copy-construct + move-assign)
+//            im k / ic k        insert(value_type&&) / insert(value_type const&) named explicitly (i alternates)
+//            ihm h k / ihc h k  insert(hint, value_type&&) / insert(hint, value_type const&) named explicitly (ih alternates)
+//            eh h k             emplace_hint(hint, k) called directly
+//            epc p              flat_set::erase(const_iterator) (ep calls erase(iterator))
+//            asic d n k.. / asuic d n k..   fsd_dyn only: s = flat_set(first, last, dyn_less{d}) /
+//                               s = flat_set(sorted_unique, first, last, dyn_less{d}): the constructors that TAKE the comparator
 // Per step the leg prints "<code> <result> [ n e1..en ]"; a fired TETL_PRECONDITION prints
 // "<code> contract [ contents ]" and ends the history.  After the history: size/empty/full/max_size,
 // every lookup for every key 0..5 (and the heterogeneous ones for tless), the six relations against
@@ -352,16 +358,19 @@ void observers(Out& o, S& s, S& t, std::size_t cap)
     if constexpr (std::is_same_v<typename S::key_compare, dyn_less>) {
         o.tok("D").b(cs.key_comp().desc); // which order the current set holds now
     }
-    for (int q = 0; q <= 5; ++q) {
+    // every key of the universe: 0..5 in the exhaustive part, -3..8 for the capacity-8 histories
+    int const qlo = cap >= 8 ? -3 : 0;
+    int const qhi = cap >= 8 ? 8 : 5;
+    for (int q = qlo; q <= qhi; ++q) {
         o.tok("q");
-        lookups(o, cs, s, q);
+        lookups(o, cs, s, typename S::value_type(q));
     }
     if constexpr (Transparent) {
-        for (int q = 0; q <= 5; ++q) {
+        for (int q = qlo; q <= qhi; ++q) {
             o.tok("t");
             lookups(o, cs, s, HK{q});
         }
-        for (int q = 0; q <= 4; ++q) {
+        for (int q = qlo; q < qhi; ++q) {
             o.tok("b");
             lookups(o, cs, s, HB{q, q + 1});
         }
@@ -397,19 +406,22 @@ void run_impl(Toks in, Out& out, std::size_t cap)
         // read the arguments first (no etl code involved)
         int k = 0, a = 0, b = 0;
         std::vector<int> ks;
-        if (code == "i" || code == "e" || code == "ek") { k = static_cast<int>(in.num()); }
-        if (code == "ih") { a = static_cast<int>(in.num()); k = static_cast<int>(in.num()); }
-        if (code == "ep") { a = static_cast<int>(in.num()); }
+        if (code == "i" || code == "e" || code == "ek" || code == "im" || code == "ic") { k = static_cast<int>(in.num()); }
+        if (code == "ih" || code == "ihm" || code == "ihc" || code == "eh") { a = static_cast<int>(in.num()); k = static_cast<int>(in.num()); }
+        if (code == "ep" || code == "epc") { a = static_cast<int>(in.num()); }
         if (code == "er" || code == "ef") { a = static_cast<int>(in.num()); b = static_cast<int>(in.num()); }
-        if (code == "ir" || code == "as" || code == "asu" || code == "rp" || code == "asi" || code == "asui") {
+        if (code == "asic" || code == "asuic") { a = static_cast<int>(in.num()); }
+        if (code == "ir" || code == "as" || code == "asu" || code == "rp" || code == "asi" || code == "asui" || code == "asic"
+            || code == "asuic") {
             for (auto x : in.list()) { ks.push_back(static_cast<int>(x)); }
         }
         bool const odd = (in.i & 1U) != 0U; // alternates between equivalent routes through the interface
         step.tok(code);
         auto call = [&]() {
-            if (code == "i") {
+            if (code == "i" || code == "im" || code == "ic") {
                 typename S::value_type kv(k);
-                auto r = odd ? s.insert(kv) : s.insert(typename S::value_type(k)); // const& and && overloads
+                bool const lvalue = code == "ic" || (code == "i" && odd);
+                auto r = lvalue ? s.insert(kv) : s.insert(typename S::value_type(k)); // const& and && overloads
                 if (r.first == nullptr) { step.tok("null"); } else { step.num(off(s, r.first)); }
                 step.b(r.second);
             } else if (code == "e") {
@@ -439,6 +451,12 @@ void run_impl(Toks in, Out& out, std::size_t cap)
                 step.num(static_cast<i64>(s.erase(typename S::value_type(k))));
             } else if (code == "ep") {
                 step.num(off(s, s.erase(s.begin() + a)));
+            } else if (code == "epc") {
+                if constexpr (K == Kind::flat_set) {
+                    step.num(off(s, s.erase(s.cbegin() + a))); // the const_iterator overload
+                } else {
+                    step.num(off(s, s.erase(s.begin() + a)));  // static_set has the iterator overload only
+                }
             } else if (code == "er") {
                 step.num(off(s, s.erase(s.begin() + a, s.begin() + b)));
             } else if (code == "cl") {
@@ -453,14 +471,31 @@ void run_impl(Toks in, Out& out, std::size_t cap)
                 }
             } else {
                 if constexpr (K == Kind::flat_set) {
-                    if (code == "ih") {
+                    if (code == "ih" || code == "ihm" || code == "ihc") {
                         auto h = std::min(static_cast<std::size_t>(a), static_cast<std::size_t>(s.size())); // a valid hint
                         typename S::value_type kv(k);
-                        step.num(off(s, odd ? s.insert(s.cbegin() + h, kv) : s.insert(s.cbegin() + h, typename S::value_type(k))));
+                        bool const lvalue = code == "ihc" || (code == "ih" && odd);
+                        step.num(off(s, lvalue ? s.insert(s.cbegin() + h, kv) : s.insert(s.cbegin() + h, typename S::value_type(k))));
+                    } else if (code == "eh") {
+                        auto h = std::min(static_cast<std::size_t>(a), static_cast<std::size_t>(s.size())); // a valid hint
+                        step.num(off(s, s.emplace_hint(s.cbegin() + h, k)));
                     } else if (code == "asu") {
                         s = S(etl::sorted_unique, Container(ks.data(), ks.data() + ks.size()));
                     } else if (code == "asui") {
                         s = S(etl::sorted_unique, ks.data(), ks.data() + ks.size());
+                    } else if (code == "asic" || code == "asuic") {
+                        if constexpr (std::is_same_v<typename S::key_compare, dyn_less>) {
+                            dyn_less const c{a != 0};
+                            if (code == "asuic") {
+                                s = S(etl::sorted_unique, ks.data(), ks.data() + ks.size(), c);
+                            } else if (odd) {
+                                s = S(fwd_it{ks.data()}, fwd_it{ks.data() + ks.size()}, c);
+                            } else {
+                                s = S(ks.data(), ks.data() + ks.size(), c);
+                            }
+                        } else {
+                            step.tok("unknown-step");
+                        }
                     } else if (code == "rp") {
                         s.replace(Container(ks.data(), ks.data() + ks.size()));
                     } else if (code == "x") {
@@ -532,12 +567,13 @@ void run_ref(Toks in, Out& out, std::size_t cap)
         Out step;
         step.tok(code);
         bool fired = false;
-        if (code == "i" || code == "e") {
+        if (code == "i" || code == "e" || code == "im" || code == "ic") {
             int k = static_cast<int>(in.num());
             if (bounded_insert(k, step, true) == 1) {
                 if constexpr (K == Kind::static_set) { step.tok("null").b(false); } else { fired = true; }
             }
-        } else if (code == "ih") {
+        } else if (code == "ih" || code == "ihm" || code == "ihc" || code == "eh") {
+            if (K != Kind::flat_set) { na = true; break; }
             auto h = static_cast<std::size_t>(in.num());
             int k  = static_cast<int>(in.num());
             h = std::min(h, s.size()); // a valid hint
@@ -571,6 +607,27 @@ void run_ref(Toks in, Out& out, std::size_t cap)
             }
             if (na) { break; }
             s = tmp;
+        } else if (code == "asic" || code == "asuic") {
+            if constexpr (std::is_same_v<Cmp, dyn_less>) {
+                dyn_less const c{in.num() != 0};
+                auto ks = in.list();
+                std::vector<int> v(ks.begin(), ks.end());
+                if (code == "asuic") {
+                    if (v.size() > cap || !sorted_unique_under(v, c)) { na = true; break; }
+                    s = R(v.begin(), v.end(), c);
+                } else {
+                    R tmp(c);
+                    for (auto k : v) {
+                        if (tmp.find(k) == tmp.end() && tmp.size() == cap) { na = true; break; } // capacity exceeded: outside the property
+                        tmp.insert(k);
+                    }
+                    if (na) { break; }
+                    s = tmp; // the assignment copies the comparator
+                }
+            } else {
+                na = true;
+                break;
+            }
         } else if (code == "cp") {
             s = t;
         } else if (code == "asu" || code == "asui") {
@@ -586,7 +643,7 @@ void run_ref(Toks in, Out& out, std::size_t cap)
             s.insert(v.begin(), v.end());
         } else if (code == "ek") {
             step.num(static_cast<i64>(s.erase(static_cast<int>(in.num()))));
-        } else if (code == "ep") {
+        } else if (code == "ep" || code == "epc") {
             auto p = static_cast<std::size_t>(in.num());
             if (p >= s.size()) { na = true; break; }
             step.num(off(s, s.erase(std::next(s.begin(), static_cast<long>(p)))));
